@@ -35,6 +35,7 @@ var cmds = map[string]func([]string){
 	"replay-memacc":         memacc.Main,
 	"memacc-child":          memacc.Child,
 	"replay-link":           linkreplay.Main,
+	"link-child":            linkreplay.Child,
 	"replay-iso":            isoreplay.Main,
 	"replay-calls":          calls.MainPlain,
 	"calls-child":           calls.ChildPlain,
